@@ -254,7 +254,7 @@ def main(argv=None):
         timings = json.loads((VERIF / "units" / "timings.json").read_text())
     except Exception:
         timings = {}
-    qmax = float(os.environ.get("VERIF_QUICK_MAX_S", "300"))
+    qmax = float(os.environ.get("VERIF_QUICK_MAX_S", "250"))
     selected = {}
     for u in units.values():
         hs = [h for h in u.harnesses if prop in h.props and h.tier != "manual" and (tier == "thorough" or h.tier == "quick")]
@@ -275,7 +275,8 @@ def main(argv=None):
             # quick tier: at most `cap` expensive harnesses per unit and property — ordered by the property's priority families, then
             # harnesses whose primary (first-listed) property is this one, then declaration order; canary last; the rest runs in the
             # thorough tier. Harnesses that cost at most 60 s do not count against the cap.
-            canaries = [h for h in hs if h.expect == "fail"][:1]
+            # (an expensive canary is thorough-only: in the quick tier vacuity is still guarded by the cover at the end of every harness)
+            canaries = [h for h in hs if h.expect == "fail" and timings.get(f"{u.name}::{h.name}", 120.0) <= 150.0][:1]
             rest = sorted(boundary_first([h for h in hs if h.expect != "fail"]), key=lambda h: (priority_rank(prop, h.name), 0 if h.props[0] == prop else 1))
             cheap = lambda h: timings.get(f"{u.name}::{h.name}", 120.0) <= 60.0
             keep, n_exp = [], 0
